@@ -5,6 +5,7 @@ import (
 	"context"
 	"encoding/base64"
 	"fmt"
+	"io"
 	"strings"
 	"sync"
 
@@ -638,7 +639,8 @@ func interleave2(na, nb int, f func([]int)) {
 //	concx <sched> <adv>:<script>…   initiating sessions user@example.net on one
 //	      xmpp.SASL("", "secret", X-ECHOC, PLAIN); adv = what the peer advertises to that session
 //	      (names, "-" = an empty list), script = the peer's elements (client-role event syntax).
-//	      The features list and every element are yield points.  X-ECHOC starts with "hi" and
+//	      The features list, the entry of the feature's Negotiate (between Parse and the use of
+//	      the parsed list) and every element are yield points.  X-ECHOC starts with "hi" and
 //	      answers its two challenges with the reversed challenge.  Answer: per session
 //	      "<authn> <err> <sent>", joined by " ; ".
 
@@ -704,6 +706,13 @@ func runConcClientMixed(r *common.Run, sched []int, scripts []cliScript, class s
 			rr := &res[i]
 			rr.conn = conns[i]
 			f := instrument(feat, rr)
+			// a yield point between the feature's Parse (the advertised list is read) and its
+			// Negotiate (the list is used)
+			inner := f.Negotiate
+			f.Negotiate = func(ctx context.Context, s *xmpp.Session, data interface{}) (xmpp.SessionState, io.ReadWriter, error) {
+				S.Park(i, "N")
+				return inner(ctx, s, data)
+			}
 			neg := xmpp.NewNegotiator(func(*xmpp.Session, *xmpp.StreamConfig) xmpp.StreamConfig {
 				return xmpp.StreamConfig{Features: []xmpp.StreamFeature{f}}
 			})
@@ -815,7 +824,7 @@ func genConcClientMixed(r *common.Run, rnd *common.Rand) {
 			if r.Quick() && (a+b)%2 == 1 && a != 2 && b != 2 && a != 6 && b != 6 {
 				continue
 			}
-			interleave2(len(sa.peer)+1, len(sb.peer)+1, func(s []int) {
+			interleave2(len(sa.peer)+2, len(sb.peer)+2, func(s []int) {
 				_ = runConcClientMixed(r, s, []cliScript{sa, sb}, "conc-cli-mixed2")
 			})
 		}
@@ -826,7 +835,7 @@ func genConcClientMixed(r *common.Run, rnd *common.Rand) {
 		for i := 0; i < 3; i++ {
 			s := mixedCliScripts[rnd.Intn(len(mixedCliScripts))]
 			sc = append(sc, s)
-			for j := 0; j <= len(s.peer); j++ {
+			for j := 0; j <= len(s.peer)+1; j++ {
 				sched = append(sched, i)
 			}
 		}
